@@ -398,3 +398,179 @@ def tags_of(case: dict) -> list[str]:
     if len(case["limits"]) > 1:
         tags.add("multi-actor")
     return sorted(tags)
+
+
+# --------------------------------------------------------------------------------------- cancel_and_await
+def run_caa_impl(case: dict) -> tuple[dict, dict]:
+    """Drive the REAL `cancel_and_await` on a probe task; returns (observation, extra facts for the oracle)."""
+    import async_solipsism
+
+    loop = async_solipsism.EventLoop()
+    asyncio.set_event_loop(loop)
+    try:
+        return loop.run_until_complete(_caa_main(case, loop))
+    finally:
+        try:
+            loop.close()
+        finally:
+            asyncio.set_event_loop(None)
+
+
+async def _caa_main(case: dict, loop: asyncio.AbstractEventLoop) -> tuple[dict, dict]:
+    from frequenz.sdk._internal._asyncio import cancel_and_await
+
+    def now() -> int:
+        return round(loop.time() * 1e6)
+
+    spec = case["task"]
+    holder: dict = {"task": None, "teardown": False, "done_at": None, "deliveries": []}
+
+    def finish(out: str) -> None:
+        if out == "exc":
+            raise ProbeExc("T")
+        if out == "base":
+            raise ProbeBase("T")
+        if out == "cancelled":
+            raise asyncio.CancelledError()
+
+    async def worker() -> None:
+        try:
+            await asyncio.sleep(spec["dur"] / 1e6)
+            out = spec["end"]
+        except asyncio.CancelledError:
+            j = 0
+            while True:
+                if holder["teardown"]:
+                    raise
+                holder["deliveries"].append(now())
+                oc = spec["oc"][min(j, len(spec["oc"]) - 1)] if spec["oc"] else {"k": 0, "d": 0, "end": "cancelled"}
+                try:
+                    for _ in range(oc["k"]):
+                        await asyncio.sleep(oc["d"] / 1e6)
+                    out = oc["end"]
+                    break
+                except asyncio.CancelledError:
+                    j += 1
+        finish(out)
+
+    callers: list[dict] = []
+    bg: list[asyncio.Task[Any]] = []
+
+    async def caller(rec: dict) -> None:
+        task = holder["task"]
+        rec["done_at_call"] = task.done()
+        rec["t_first"] = now()
+        try:
+            await cancel_and_await(task)
+            rec["raised"] = "none"
+        except asyncio.CancelledError:
+            rec["raised"] = "cancelled"
+        except ProbeExc:
+            rec["raised"] = "exc"
+        except ProbeBase:
+            rec["raised"] = "base"
+        rec["ret"] = now()
+        rec["task_done_at_ret"] = task.done()
+
+    for g in case["ctl"]:
+        d = g["t"] / 1e6 - loop.time()
+        if d > 0:
+            await asyncio.sleep(d)
+        for op in g["ops"]:
+            if op == "create":
+                t = asyncio.create_task(worker())
+                t.add_done_callback(lambda _t: holder.__setitem__("done_at", now()))
+                holder["task"] = t
+            elif op == "cancel":
+                holder["task"].cancel()
+            elif op == "caa":
+                rec = {"ret": None, "raised": "none", "t": g["t"]}
+                callers.append(rec)
+                bg.append(asyncio.create_task(caller(rec)))
+            else:
+                raise ValueError(op)
+    d = case["end"] / 1e6 - loop.time()
+    if d > 0:
+        await asyncio.sleep(d)
+    task = holder["task"]
+    if not task.done():
+        state = "pending"
+    elif task.cancelled():
+        state = "cancelled"
+    else:
+        e = task.exception()
+        state = "ret" if e is None else _kind_of_exc(e)
+    obs = {"task": {"state": state, "done_at": holder["done_at"], "cancelling": task.cancelling()},
+           "callers": [{"ret": r["ret"], "raised": r["raised"] if r["ret"] is not None else "none"} for r in callers]}
+    facts = {"callers": [dict(r) for r in callers], "state": state, "done_at": holder["done_at"]}
+    holder["teardown"] = True
+    for _ in range(5):
+        todo = [t for t in bg + [task] if not t.done()]
+        if not todo:
+            break
+        for t in todo:
+            t.cancel()
+        await asyncio.wait(todo, timeout=1000.0)
+    if task.done() and not task.cancelled():
+        task.exception()
+    return obs, facts
+
+
+def gen_caa_case(rng: random.Random) -> dict:
+    """Prior state of the task × instants of bare cancel() calls × 1-3 cancel_and_await callers."""
+    oc = [{"k": rng.choice([0, 0, 1, 1, 2, 3]), "d": rng.choice([1 * MS, 500 * MS, 1 * SEC]),
+           "end": rng.choice(["cancelled"] * 4 + ["exc", "base", "ret"])} for _ in range(rng.randint(1, 3))]
+    task = {"dur": rng.choice([1 * MS, 500 * MS, 1 * SEC, 2 * SEC, 100 * SEC, 100 * SEC]),
+            "end": rng.choice(["ret", "ret", "exc", "base", "cancelled"]), "oc": oc}
+    first = ["create"]
+    pre = rng.random()
+    if pre < 0.15:
+        first = ["caa", "create"]                  # the caller runs before the task's first step: not started
+    elif pre < 0.25:
+        first = ["create", "cancel"] + (["cancel"] if rng.random() < 0.5 else [])
+    elif pre < 0.35:
+        first = ["create", "caa"]
+    elif pre < 0.40:
+        first = ["caa", "caa", "create"]
+    ctl = [{"t": 10, "ops": first}]
+    t_base = 0
+    for i in range(1, rng.randint(1, 6)):
+        t_base += rng.choice([0, 1, 1, 2, 2, 3, 4]) * 500 * MS
+        delta = rng.choice([0, 0, -1 * MS, 1 * MS, 100 * MS])
+        t = max(t_base + delta, (ctl[-1]["t"] // MS + 1) * MS)
+        t = (t // MS) * MS + 10 * (i + 1)
+        ops = [rng.choice(["cancel", "caa", "caa"]) for _ in range(rng.choice([1, 1, 2, 2, 3]))]
+        ctl.append({"t": t, "ops": ops})
+    end = (ctl[-1]["t"] // MS) * MS + rng.choice([1, 1000, 2500, 5000]) * MS + 990
+    return {"kind": "caa", "task": task, "ctl": ctl, "end": end}
+
+
+def exhaustive_caa_cases() -> list[dict]:
+    """every prior state × clean-up length × outcome of the clean-up × number of earlier cancel() requests × 1-2 callers."""
+    out = []
+    for prior in ("not-started", "running", "done"):
+        for end in OUTCOMES:
+            for k in (0, 1, 2):
+                for oc_end in OUTCOMES:
+                    for n_cancel in (0, 1, 2):
+                        for n_call in (1, 2):
+                            for gap in (0, 300 * MS):
+                                dur = 1 * SEC if prior == "done" else 100 * SEC
+                                task = {"dur": dur, "end": end, "oc": [{"k": k, "d": 1 * SEC, "end": oc_end}]}
+                                if prior == "not-started":
+                                    if gap:
+                                        continue
+                                    ctl = [{"t": 10, "ops": ["caa"] * n_call + ["create"] + ["cancel"] * n_cancel}]
+                                else:
+                                    t0 = 2 * SEC if prior == "done" else 500 * MS
+                                    ctl = [{"t": 10, "ops": ["create"]}]
+                                    if gap and n_cancel:
+                                        ctl.append({"t": t0 + 20, "ops": ["cancel"] * n_cancel})
+                                        ctl.append({"t": t0 + gap + 30, "ops": ["caa"] * n_call})
+                                    else:
+                                        ctl.append({"t": t0 + 20, "ops": ["cancel"] * n_cancel + ["caa"] * n_call})
+                                        if gap and n_call == 2:
+                                            ctl[-1]["ops"] = ["cancel"] * n_cancel + ["caa"]
+                                            ctl.append({"t": t0 + gap + 30, "ops": ["caa"]})
+                                out.append({"kind": "caa", "task": task, "ctl": ctl, "end": 6 * SEC + 990})
+    return out
